@@ -18,6 +18,7 @@ func init() {
 			{"C18/never-read", ruleC18NeverRead},
 			{"C18/case-exact-decoding", ruleC18CaseExact},
 			{"C18/unknown-accepted", ruleC18UnknownAccepted},
+			{"C18/name-set-exact", func(c *Ctx) { ruleNameSetExact(c, "C18/name-set-exact") }},
 		},
 		Explanation: "Decides non-interference as a read effect: no function reachable from Validate reads a Schema field classified non-asserting (title, description, $comment, default, examples, deprecated, readOnly, writeOnly, format, content*), container ($defs, definitions) or meta (Extra, PropertyOrder), neither directly nor through reflection; the resolution pipeline reads of those fields are limited to a frozen, reasoned set (default validation, traversal); the keyword decoder never hands the caller's document bytes directly to a case-insensitive struct decode but re-encodes a map filtered by exact membership in the JSON-name set; unknown keywords cannot be rejected (Extra is map[string]any filled from a generic decode; no DisallowUnknownFields). It does NOT observe verdict equality of decorated and undecorated schemas, and cannot tell whether the exact-key filter is itself right.",
 		NotDecided: []string{"verdict equality of a decorated and an undecorated schema as an observed fact", "correctness of the exact-key filter beyond its presence and its dependence on the JSON-name set"},
@@ -351,7 +352,7 @@ func (c *Ctx) mapFilteredByNameSet(fn *ssa.Function, m ssa.Value) bool {
 		if !sameMap(call.Call.Args[0], m) {
 			return
 		}
-		for _, br := range fi.Guards(call.Block()) {
+		for _, br := range fi.DomGuards(call.Block()) {
 			cond, pol := br.Cond()
 			if cond == nil {
 				continue
@@ -362,6 +363,7 @@ func (c *Ctx) mapFilteredByNameSet(fn *ssa.Function, m ssa.Value) bool {
 				v, pol = u.X, !pol
 			}
 			lk, ok := v.(*ssa.Lookup)
+			_ = br
 			if ext, isExt := v.(*ssa.Extract); isExt {
 				if l2, ok2 := ext.Tuple.(*ssa.Lookup); ok2 && ext.Index == 1 {
 					lk, ok = l2, true
@@ -372,6 +374,15 @@ func (c *Ctx) mapFilteredByNameSet(fn *ssa.Function, m ssa.Value) bool {
 			}
 			mt, isMap := lk.X.Type().Underlying().(*types.Map)
 			if !isMap || !tString(mt.Key()) {
+				continue
+			}
+			// once the exact lookup fails the key must be deleted unconditionally:
+			// the delete post-dominates the not-found successor of the test.
+			notFound := br.Block.Succs[1]
+			if u, ok := cond.(*ssa.UnOp); ok && u.Op.String() == "!" {
+				notFound = br.Block.Succs[0]
+			}
+			if !fi.PostDominates(call.Block(), notFound) {
 				continue
 			}
 			for _, src := range traceSources(lk.X) {
